@@ -254,3 +254,55 @@ _run_1 = run
 def run(ctx, rep):
     _run_1(ctx, rep)
     run_entry_identity(ctx, rep)
+
+
+# ---------------------------------------------------------------------------------------------
+# R1.10  an entry whose slots have been marked deleted is not turned into a handle afterwards: `to_dir` / `to_file` / `editor`
+#        of a DirEntry carry the entry's position, and a handle writes "its" entry back when it is dropped (access date, size) -
+#        into slots that are free, or already reused for the new name
+
+def run_no_handle_on_deleted(ctx, rep):
+    facts = ctx.facts
+    n = 0
+    for fn in facts.fns.values():
+        if fn.crate != 'fatfs':
+            continue
+        dels = [b for b, t in fn.calls() if (t.get('callee') or '').endswith('::set_deleted')]
+        if not dels:
+            continue
+        d = Deps(fn)
+        finds = {b for b, t in fn.calls() if (t.get('callee') or '').endswith('Dir::find_entry')}
+        writes = {b for b, t in fn.calls() if (t.get('callee') or '').endswith('Dir::write_entry')}
+        # the entry being deleted: the lookup whose result positions the stream in front of the deletion loop
+        victims = set()
+        for b, t in fn.calls():
+            if (t.get('callee') or '').endswith('io::Seek::seek') and len(t['args']) > 1 and any(x in fn.reach_from([b]) for x in dels):
+                toks = d.of_operand(t['args'][1])
+                victims |= {f for f in finds if ('callsite', f) in toks}
+        if not victims:
+            continue
+        after = fn.reach_from(dels)
+        for b, t in fn.calls():
+            c = t.get('callee') or ''
+            if b not in after or not c.endswith(('DirEntry::to_dir', 'DirEntry::to_file', 'DirEntry::editor')) or not t['args']:
+                continue
+            toks = d.of_operand(t['args'][0])
+            n += 1
+            from_victim = any(('callsite', f) in toks for f in victims)
+            from_new = any(('callsite', w) in toks for w in writes) or any(('callsite', f) in toks for f in finds - victims)
+            ok = not from_victim or from_new
+            rep.oblige('R1.10', '%s|bb%d' % (fn.name, b), ok=ok, nontrivial=True, sample={'fn': fn.name, 'at': fn.loc(t['span'])})
+            if not ok:
+                rep.violation('R1.10', vkey('R1.10', fn.name, 'handle-on-deleted', c.rsplit('::', 1)[-1]), fn.loc(t['span']),
+                              '%s makes a handle (`%s`) from the entry whose slots it has just marked deleted: when the handle is '
+                              'dropped it writes that entry back (e.g. a new access date) into slots that are free or already hold '
+                              'the new name - the old name reappears / the new entry is overwritten' % (fn.name, t['span']['snip'][:60]))
+    rep.counts['R1.10.sites'] = n
+
+
+_run_1b = run
+
+
+def run(ctx, rep):
+    _run_1b(ctx, rep)
+    run_no_handle_on_deleted(ctx, rep)
